@@ -322,7 +322,11 @@ func (l *Lazy) clone() *Lazy {
 
 func (l *Lazy) zeroTerms() []string { return flatten(zeroVal(l.et)) }
 
-func (l *Lazy) read(arr, idx string) []string {
+func (l *Lazy) read(arr, idx string) []string { return l.readL(arr, idx, nil) }
+
+// readL resolves a read through the update list; reads of the *sources* of bulk copies are logged (they are index terms of
+// the source sequence, needed to instantiate quantified facts about it)
+func (l *Lazy) readL(arr, idx string, log *[]IdxT) []string {
 	n := len(l.base)
 	r := make([]string, n)
 	for k := 0; k < n; k++ {
@@ -342,7 +346,11 @@ func (l *Lazy) read(arr, idx string) []string {
 			}
 		case u.bulk:
 			hit = sAnd(sEq(arr, u.arr), sLe(u.lo, idx), sLt(idx, sAdd(u.lo, u.n)))
-			v = u.src.read(u.srcArr, sAdd(u.srcOff, sSub(idx, u.lo)))
+			si := sAdd(u.srcOff, sSub(idx, u.lo))
+			if log != nil {
+				*log = append(*log, IdxT{si, u.srcArr})
+			}
+			v = u.src.readL(u.srcArr, si, log)
 		default:
 			hit, v = sAnd(sEq(arr, u.arr), sEq(idx, u.idx)), u.v
 		}
@@ -439,6 +447,7 @@ type State struct {
 	visitedKey string
 	dbg        map[string]Val  // source-level names -> current values (from DebugRef / loop phis)
 	dbgAddr    map[string]Val  // names of variables that live in memory -> their address
+	trace      []string        // branch decisions taken on this path (source line + outcome)
 	qfSeen     map[string]bool // rendered quantified assumptions already in the path condition
 	applied    map[string]bool // pure applications whose contract instance was already assumed on this path
 	depth      int
@@ -461,6 +470,7 @@ func (st *State) clone() *State {
 	for k, v := range st.applied {
 		n.applied[k] = v
 	}
+	n.trace = st.trace[:len(st.trace):len(st.trace)]
 	n.qfSeen = make(map[string]bool, len(st.qfSeen))
 	for k, v := range st.qfSeen {
 		n.qfSeen[k] = v
@@ -506,7 +516,7 @@ type IdxT struct{ T, Seq string }
 func (st *State) addIdx(t string) { st.addIdxSeq(t, "") }
 
 func (st *State) addIdxSeq(t, seq string) {
-	if t == "" || len(t) > 300 || strings.Contains(t, "?") {
+	if t == "" || len(t) > 1500 || strings.Contains(t, "?") {
 		return
 	}
 	for _, x := range st.idx {
